@@ -620,6 +620,7 @@ type sevent struct {
 	Unread int         `json:"unread"`
 	Nbytes int         `json:"nbytes"`
 	Nitems int         `json:"nitems"`
+	Alloc  int         `json:"alloc"` // bytes allocated by Load (damaged inputs)
 	Pre    *hx.State   `json:"pre,omitempty"`
 	St     *hx.State   `json:"st,omitempty"`
 	Cfg    interface{} `json:"cfg,omitempty"`
@@ -704,6 +705,7 @@ func shapeMeta(shape string, rng *rand.Rand) index.Metadata {
 // streams: random index states (inserts/removes with a given metadata shape), then
 // Save(header) and Load through a fragmenting reader into a fresh or a used index.
 func streams(c Cfg, n int, seed int64, out, rankOut string) {
+	damaged := 3
 	hx.MetaHash = true
 	rng := rand.New(rand.NewSource(seed))
 	vecs := make([]amath.Vector, c.Np)
@@ -798,6 +800,38 @@ func streams(c Cfg, n int, seed int64, out, rankOut string) {
 						st, _ := hx.Project(target, u, nil)
 						ev.St = &st
 					}
+					enc.Encode(ev)
+				}
+			}
+			// the same bytes cut short (a transfer that broke off): recorded, not judged - C08 speaks about loading
+			// the index's own, complete output.  (Overwriting counts with huge numbers is deliberately not tried
+			// here: the unchanged tree allocates 23 GB for such a 515-byte input, which is outside the property
+			// as stated and would only kill the harness.)
+			if serr == nil && len(data) > 8 {
+				for k := 0; k < damaged; k++ {
+					bad := append([]byte{}, data...)
+					o := rng.Intn(len(bad) - 4)
+					kind := "cut"
+					bad = bad[:o]
+					hid++
+					enc.Encode(sevent{Ev: "loading", Hid: hid, Hdr: hdr, Reader: kind, Tgt: "fresh", Shape: shape, Nbytes: len(bad), Nitems: len(pre.Live)})
+					bw.Flush()
+					ev := sevent{Ev: "damaged", Hid: hid, Hdr: hdr, Reader: kind, Tgt: "fresh", Shape: shape, Nbytes: len(bad), Nitems: len(pre.Live), Res: "ok"}
+					target := c.Index.New(u)
+					var m0, m1 runtime.MemStats
+					runtime.ReadMemStats(&m0)
+					func() {
+						defer func() {
+							if r := recover(); r != nil {
+								ev.Res, ev.Err = "loadpanic", fmt.Sprint(r)
+							}
+						}()
+						if err := target.Load(bytes.NewReader(bad), hdr == 1); err != nil {
+							ev.Res, ev.Err = "loaderr", err.Error()
+						}
+					}()
+					runtime.ReadMemStats(&m1)
+					ev.Alloc = int(m1.TotalAlloc - m0.TotalAlloc)
 					enc.Encode(ev)
 				}
 			}
